@@ -32,6 +32,7 @@ func (s *Solutions) Close() error {
 	if s.closed {
 		return ErrClosed
 	}
+	simYield(s, "U:close-more")
 	close(s.more)
 	s.closed = true
 	return nil
@@ -43,9 +44,12 @@ func (s *Solutions) Next() bool {
 	if s.closed {
 		return false
 	}
+	simYield(s, "U:send-more")
 	s.more <- true
+	simYield(s, "U:recv-next")
 	var ok bool
 	s.env, ok = <-s.next
+	simYield(s, "U:woke-next")
 	return ok
 }
 
